@@ -440,6 +440,10 @@ TIES = {
     'SemKill': dict(gen=['ExpectationsDtor', 'ExpectationsDtorNonMovable', 'Decommission', 'MockDestroyed', 'ReportMissed'], props=['C04'],
                     theorems=['expectations_dtor_order', 'expectations_dtor_sem'],
                     cxx='~expectations (both specialisations): active list decommissioned before the saturated list'),
+    'Reports': dict(props=['C04', 'C07', 'C08', 'C15'], gen=['AddCondition', 'AddSideEffect', 'ReportUnfulfilled', 'ReportForbiddenCall', 'ReturnValue'],
+                    theorems=['add_condition_tie', 'add_side_effect_tie', 'clauses_in_declaration_order', 'report_unfulfilled_tie',
+                              'report_forbidden_call_tie', 'return_value_tie'],
+                    cxx='call_matcher::add_condition / add_side_effect / return_value, report_unfulfilled, report_forbidden_call (mock.hpp)'),
     'Ring': dict(props=['C14'], gen=['RingUnlink', 'RingElemDtor', 'RingMoveAssign', 'RingPushFront', 'RingPushBack', 'RingBegin', 'RingEnd',
                                     'RingIterIncr', 'RingIsLinked', 'RingListDtor'],
                  theorems=['ring_unlink_tie', 'ring_elem_dtor_tie', 'ring_move_assign_tie', 'ring_push_front_tie', 'ring_push_back_tie',
